@@ -9,6 +9,7 @@
 // interfaces)
 // - Return value handling
 
+#include "../../../../common/cb_verif_hook.h"
 #include "../../../../common/ast.h"
 #include "../../../../common/debug.h"
 #include "../../../../common/debug_messages.h"
@@ -3273,6 +3274,9 @@ int64_t ExpressionEvaluator::evaluate_function_call_impl(const ASTNode *node) {
                           << size << std::endl;
                 return 0;
             }
+#ifdef CB_VERIF
+            cb_verif_trace("alloc %p %lld", ptr, static_cast<long long>(size));
+#endif
 
             return reinterpret_cast<int64_t>(ptr);
         }
@@ -3292,6 +3296,9 @@ int64_t ExpressionEvaluator::evaluate_function_call_impl(const ASTNode *node) {
                 return 0;
             }
 
+#ifdef CB_VERIF
+            cb_verif_trace("free %p", reinterpret_cast<void *>(ptr_value));
+#endif
             std::free(reinterpret_cast<void *>(ptr_value));
             return 0;
         }
@@ -3722,6 +3729,9 @@ int64_t ExpressionEvaluator::evaluate_function_call_impl(const ASTNode *node) {
                           << size << std::endl;
                 return 0;
             }
+#ifdef CB_VERIF
+            cb_verif_trace("alloc %p %lld", ptr, static_cast<long long>(size));
+#endif
 
             if (interpreter_.is_debug_mode()) {
                 {
@@ -3750,6 +3760,9 @@ int64_t ExpressionEvaluator::evaluate_function_call_impl(const ASTNode *node) {
                 return 0;
             }
 
+#ifdef CB_VERIF
+            cb_verif_trace("free %p", reinterpret_cast<void *>(ptr_value));
+#endif
             std::free(reinterpret_cast<void *>(ptr_value));
             return 0;
         }
